@@ -67,6 +67,9 @@ class ClassSpec:
         self.fields: Dict[str, Any] = dict(getattr(impl, "fields", {}) or {})
         self.invariant = getattr(impl, "invariant", None)
         self.mutable: List[str] = list(getattr(impl, "mutable", []) or [])
+        # labels of invariant clauses that speak about the completely constructed object (they are neither assumed nor
+        # obligated when a base-class __init__ runs on an object of a subclass that is still under construction)
+        self.whole_object: List[str] = list(getattr(impl, "whole_object", []) or [])
         self.props: Dict[str, Any] = dict(getattr(impl, "props", {}) or {})  # abstract property kinds (interfaces)
 
 
